@@ -106,11 +106,11 @@ REGISTRY.update({
                          "(only() is implied by the marker and equivalent to it when it mentions only the kept names), C12_exclude_identity (exclude() leaves the meaning unchanged on markers that do not mention the variable and have no contradictory conjunct / empty disjunction) over Model/Marker.v",
                          smark_pairs=100, proof=("Props/C12.v", ["C12_only_implied", "C12_only_identity", "C12_only_wf", "C12_only_vars", "C12_exclude_vars", "C12_exclude_identity"]), only_rate=1.0),
     "C15": marker_runner(pm.oracle_c15, 500, 8000, GEN_RULE,
-                         "proof, PARTIAL: C15_reachable / C15_and / C15_or / C15_multi_of_wf / C15_union_of_wf / C15_only / C15_exclude (every marker reachable from atoms through &, |, of(), only(), exclude() is well shaped at every depth: "
+                         "proof, PARTIAL: C15_reachable / C15_and / C15_or / C15_multi_of_shaped / C15_union_of_shaped / C15_only / C15_exclude (every marker reachable from atoms through &, |, of(), only(), exclude() is well shaped at every depth: "
                          "the children of each compound are pairwise distinct and none is a compound of the same kind); C15_multi_of / C15_union_of (what MultiMarker.of / MarkerUnion.of return: the absorbing marker, the neutral marker, the single marker left, or a compound built from >= 2 pairwise distinct, "
                          "non-absorbing processed markers with pairwise distinct children), C15_one_child_refuted (the recorded finding reproduced on the model). The rest of the normal form (no neutral child; at least two children on the paths that do not end in of()) "
                          "is decided by the normal-form checker of the direct oracle on every result and by the structural S-mark correspondence",
-                         smark_pairs=100, proof=("Props/C15.v", ["C15_reachable", "C15_and", "C15_or", "C15_multi_of_wf", "C15_union_of_wf", "C15_only", "C15_exclude", "C15_wf_multi", "C15_wf_union",
+                         smark_pairs=100, proof=("Props/C15.v", ["C15_reachable", "C15_and", "C15_or", "C15_multi_of_shaped", "C15_union_of_shaped", "C15_only", "C15_exclude", "C15_shaped_multi", "C15_shaped_union",
                                                                   "C15_multi_of", "C15_union_of", "of_body_shape", "C15_one_child_refuted"])),
 })
 
